@@ -704,3 +704,48 @@ def gen_coro_design(rnd, size=8, reset=None, depth=3, step_cond=False, subs=True
         ctx['step_cond'] = rnd.choice(['self.a', 'self.b'])
     spec = {'inputs': inputs, 'outs': outs, 'sigs': sigs, 'vars': vars_, 'arrs': [], 'ctxs': [ctx]}
     return spec, sorted(bg.features)
+
+
+def gen_reset_design(rnd, size=8):
+    """C04: a clocked context (plain or coroutine) with a reset of random polarity / synchronicity, objects with
+    and without default, noreset objects, optional step condition and on_reset actions"""
+    reset = {'sig': 'rst', 'active_low': rnd.random() < 0.4, 'is_async': rnd.random() < 0.4}
+    coro = rnd.random() < 0.6
+    step = rnd.random() < 0.3
+    if coro:
+        spec, feats = gen_coro_design(rnd, size=size, reset=reset, depth=rnd.choice([1, 2, 3]), step_cond=step)
+    else:
+        spec, feats = gen_seq_design(rnd, size=size, reset=reset, step_cond=step, with_conc=False)
+    feats = list(feats) + ['coroutine' if coro else 'plain', 'async-reset' if reset['is_async'] else 'sync-reset',
+                           'active-low' if reset['active_low'] else 'active-high'] + (['step-cond'] if step else [])
+    ctx = spec['ctxs'][0]
+    # noreset on some driven objects (whole-object and slice writes both occur in the bodies)
+    def mark(lst, prob):
+        out = []
+        for o in lst:
+            o = tuple(o)
+            if len(o) == 4 and o[3] is not None and o[0] in ctx['driven'] and o[0] not in ('mk', 'acc') and rnd.random() < prob:
+                o = o + (True,)
+                feats.append('noreset')
+            out.append(o)
+        return out
+    spec['outs'] = mark(spec['outs'], 0.25)
+    spec['sigs'] = mark(spec['sigs'], 0.3)
+    spec['vars'] = mark(spec['vars'], 0.3)
+    if rnd.random() < 0.45:
+        tg = [o for o in spec['outs'] if o[1] == 'u' and o[0] != 'mk' and o[0] not in ctx.get('pushed', [])]
+        if tg:
+            t = rnd.choice(tg)
+            k = rnd.randrange(1, 1 << t[2])
+            body = [('sig', f"self.{t[0]}", str(k))]
+            if spec['sigs'] and rnd.random() < 0.5:
+                s0 = spec['sigs'][0]
+                body.append(('sig', s0[0], str(rnd.randrange(1 << s0[2]))))
+                if s0[0] not in ctx['driven']:
+                    ctx['driven'].append(s0[0])
+            if t[0] not in ctx['driven']:
+                ctx['driven'].append(t[0])
+            ctx['on_reset'] = body
+            ctx['on_reset_route'] = rnd.choice(['kw', 'kw', 'ctxobj', 'call'])
+            feats.append('on_reset:' + ctx['on_reset_route'])
+    return spec, sorted(set(feats))
